@@ -1,22 +1,285 @@
 /-
   Generic composition: an invariant `P` whose *leaf* obligations hold (the few primitives that write the
   state) is preserved by every function of the model, by `step`, and holds in every reachable state.
+
+  Three layers:
+  * `Base`  — leaves for everything that does not write identity, incarnation or renew policy;
+  * `Full`  — `Base` plus `handle_self_update` (the only internal writer of identity/incarnation);
+              yields every function up to `runOp`, the two identity-changing API calls being hypotheses;
+  * `Leaves` — for invariants that ignore identity and incarnation altogether: everything, no hypotheses.
 -/
 import FocaModel.Proofs.Inv
 namespace Foca
 
-/-- `f` leaves membership, counters and both backlogs alone (it may touch connection state, token, probe,
-    incarnation, identity, policy, configuration, send buffer, handler state) -/
+/-- `f` leaves membership, counters, both backlogs, identity, incarnation and policy alone (it may touch
+    connection state, token, probe, configuration, send buffer, handler state) -/
+def CtlKeep (f : State → State) : Prop :=
+  ∀ s, (f s).ms = s.ms ∧ (f s).numActive = s.numActive ∧ (f s).updates = s.updates ∧
+    (f s).custom = s.custom ∧ (f s).cursor = s.cursor ∧ (f s).id = s.id ∧ (f s).inc = s.inc ∧ (f s).policy = s.policy
+
+/-- `f` leaves membership, counters and both backlogs alone (it may also touch identity, incarnation, policy) -/
 def CtlOnly (f : State → State) : Prop :=
   ∀ s, (f s).ms = s.ms ∧ (f s).numActive = s.numActive ∧ (f s).updates = s.updates ∧
     (f s).custom = s.custom ∧ (f s).cursor = s.cursor
 
-/-- `f` may also replace the custom-broadcast backlog (and handler state) -/
+/-- `f` may replace the custom-broadcast backlog and handler state, nothing else -/
 def CustomOnly (f : State → State) : Prop :=
   ∀ s, (f s).ms = s.ms ∧ (f s).numActive = s.numActive ∧ (f s).updates = s.updates ∧ (f s).cursor = s.cursor ∧
-    (f s).id = s.id ∧ (f s).inc = s.inc ∧ (f s).conn = s.conn ∧ (f s).token = s.token ∧ (f s).cfg = s.cfg
+    (f s).id = s.id ∧ (f s).inc = s.inc ∧ (f s).conn = s.conn ∧ (f s).token = s.token ∧ (f s).cfg = s.cfg ∧
+    (f s).policy = s.policy ∧ (f s).probe = s.probe ∧ (f s).sendCap = s.sendCap
 
-/-- the leaf obligations of an invariant -/
+/-- leaf obligations, identity/incarnation writers excluded -/
+structure Base (E : Env) (P : State → Prop) : Prop where
+  membersApply : ∀ u, Pres P (membersApply u)
+  membersApplyExistingIf : ∀ u cond, Pres P (membersApplyExistingIf u cond)
+  membersNext : Pres P membersNext
+  removeDown : ∀ id, Pres P (modS fun s => { s with ms := removeIfDown s.ms id })
+  sendMessage : ∀ d m, Pres P (sendMessage E d m)
+  addUpdate : ∀ m, Pres P (addUpdate E m)
+  modCtl : ∀ f, CtlKeep f → Pres P (modS f)
+  modCustom : ∀ f, CustomOnly f → Pres P (modS f)
+
+section
+variable {E : Env} {P : State → Prop} (B : Base E P)
+include B
+
+theorem Base.ctl (f : State → State)
+    (h : ∀ s, (f s).ms = s.ms ∧ (f s).numActive = s.numActive ∧ (f s).updates = s.updates ∧
+      (f s).custom = s.custom ∧ (f s).cursor = s.cursor ∧ (f s).id = s.id ∧ (f s).inc = s.inc ∧
+      (f s).policy = s.policy := by intro s; exact ⟨rfl, rfl, rfl, rfl, rfl, rfl, rfl, rfl⟩) :
+    Pres P (modS f) := B.modCtl f h
+
+theorem Base.chooseLoop (w : Nat) (pick : Member → Bool) (l out : List Member) (seen : Nat) :
+    Pres P (Foca.chooseLoop w pick l out seen) := by
+  constructor
+  intro c hc
+  have := chooseLoop_spec w pick l out seen c
+  cases h : Foca.chooseLoop w pick l out seen c with
+  | stuck x => trivial
+  | err e c' => rw [h] at this; exact this.elim
+  | ok a c' => rw [h] at this; simp only; rw [this.1]; exact hc
+
+theorem Base.sendAll (msg : Msg) (ds : List Id) : Pres P (Foca.sendAll E msg ds) := by
+  induction ds with
+  | nil => unfold Foca.sendAll; exact Pres.pure _
+  | cons d rest ih =>
+    unfold Foca.sendAll
+    exact Pres.bind (B.sendMessage d msg) (fun _ => ih)
+
+theorem Base.chooseAndSend (n : Nat) (msg : Msg) : Pres P (Foca.chooseAndSend E n msg) := by
+  unfold Foca.chooseAndSend
+  pres
+  · exact B.chooseLoop _ _ _ _ _
+  · exact B.sendAll _ _
+
+theorem Base.gossip : Pres P (Foca.gossip E) := by
+  unfold Foca.gossip
+  pres
+  exact B.chooseAndSend _ _
+
+theorem Base.announceToDown (n : Nat) : Pres P (Foca.announceToDown E n) := by
+  unfold Foca.announceToDown
+  pres
+  · exact B.chooseLoop _ _ _ _ _
+  · exact B.sendAll _ _
+
+theorem Base.becomeUndead : Pres P Foca.becomeUndead := by
+  unfold Foca.becomeUndead
+  pres
+  exact B.ctl _
+
+theorem Base.becomeDisconnected : Pres P (Foca.becomeDisconnected E) := by
+  unfold Foca.becomeDisconnected
+  pres
+  exact B.ctl _
+
+theorem Base.becomeConnected : Pres P (Foca.becomeConnected E) := by
+  unfold Foca.becomeConnected
+  pres
+  exact B.ctl _
+
+theorem Base.adjustConnectionState : Pres P (Foca.adjustConnectionState E) := by
+  unfold Foca.adjustConnectionState
+  pres
+  · exact B.becomeConnected
+  · exact B.becomeDisconnected
+
+theorem Base.handleApplySummary (sm : Summary) (u : Member) (b : Bool) : Pres P (Foca.handleApplySummary E sm u b) := by
+  unfold Foca.handleApplySummary
+  pres
+  all_goals first | exact B.addUpdate _ | skip
+
+theorem Base.applyUpdate (u : Member) (b : Bool) : Pres P (Foca.applyUpdate E u b) := by
+  unfold Foca.applyUpdate
+  pres
+  · exact B.membersApply u
+  · exact B.handleApplySummary _ _ _
+
+theorem Base.broadcastLoop (ds : List Id) : Pres P (Foca.broadcastLoop E ds) := by
+  induction ds with
+  | nil => unfold Foca.broadcastLoop; exact Pres.pure _
+  | cons d rest ih =>
+    unfold Foca.broadcastLoop
+    pres
+    · exact B.sendMessage _ _
+    · exact ih
+
+theorem Base.broadcastApi : Pres P (Foca.broadcastApi E) := by
+  unfold Foca.broadcastApi
+  pres
+  · exact B.chooseLoop _ _ _ _ _
+  · exact B.broadcastLoop _
+
+theorem Base.leaveCluster : Pres P (Foca.leaveCluster E) := by
+  unfold Foca.leaveCluster
+  pres
+  · exact B.addUpdate _
+  · exact B.gossip
+  · exact B.becomeUndead
+
+theorem Base.addBroadcast (d : Bytes) : Pres P (Foca.addBroadcast E d) := by
+  unfold Foca.addBroadcast
+  pres
+  all_goals exact B.modCustom _ (fun _ => ⟨rfl, rfl, rfl, rfl, rfl, rfl, rfl, rfl, rfl, rfl, rfl, rfl⟩)
+
+theorem Base.setConfig (cfg : Config) : Pres P (Foca.setConfig cfg) := by
+  unfold Foca.setConfig
+  pres
+  exact B.ctl _
+
+theorem Base.probeRandomMember : Pres P (Foca.probeRandomMember E) := by
+  unfold Foca.probeRandomMember
+  pres
+  all_goals first
+    | exact B.ctl _
+    | exact B.membersApplyExistingIf _ _
+    | exact B.handleApplySummary _ _ _
+    | exact B.membersNext
+    | exact B.sendMessage _ _
+
+theorem Base.pingReqLoop (probed : Id) (ds : List Id) : Pres P (Foca.pingReqLoop E probed ds) := by
+  induction ds with
+  | nil => unfold Foca.pingReqLoop; exact Pres.pure _
+  | cons d rest ih =>
+    unfold Foca.pingReqLoop
+    pres
+    · exact B.ctl _
+    · exact B.sendMessage _ _
+    · exact ih
+
+theorem Base.handleTimer (t : Timer) : Pres P (Foca.handleTimer E t) := by
+  unfold Foca.handleTimer
+  pres
+  all_goals first
+    | exact B.ctl _
+    | exact B.removeDown _
+    | exact B.chooseLoop _ _ _ _ _
+    | exact B.pingReqLoop _ _
+    | exact B.membersApplyExistingIf _ _
+    | exact B.handleApplySummary _ _ _
+    | exact B.adjustConnectionState
+    | exact B.sendMessage _ _
+    | exact B.probeRandomMember
+    | exact B.chooseAndSend _ _
+    | exact B.announceToDown _
+
+theorem Base.customLoop (sender : Option Id) (fuel : Nat) (data : Bytes) : Pres P (Foca.customLoop E sender fuel data) := by
+  induction fuel generalizing data with
+  | zero => unfold Foca.customLoop; exact Pres.throwE _
+  | succ f ih =>
+    unfold Foca.customLoop
+    pres
+    all_goals first
+      | exact B.modCustom _ (fun _ => ⟨rfl, rfl, rfl, rfl, rfl, rfl, rfl, rfl, rfl, rfl, rfl, rfl⟩)
+      | exact ih _
+
+theorem Base.handleCustomBroadcasts (data : Bytes) (sender : Option Id) :
+    Pres P (Foca.handleCustomBroadcasts E data sender) := by
+  unfold Foca.handleCustomBroadcasts
+  pres
+  exact B.customLoop _ _ _
+
+end
+
+/-- `Base` plus `handle_self_update` -/
+structure Full (E : Env) (P : State → Prop) : Prop extends Base E P where
+  handleSelfUpdate : ∀ inc st, Pres P (handleSelfUpdate E inc st)
+
+section
+variable {E : Env} {P : State → Prop} (F : Full E P)
+include F
+
+theorem Full.applyOne (u : Member) (b : Bool) : Pres P (Foca.applyOne E u b) := by
+  unfold Foca.applyOne
+  pres
+  all_goals first
+    | exact F.handleSelfUpdate _ _
+    | exact F.toBase.applyUpdate _ _
+
+theorem Full.applyLoop (b : Bool) (us : List Member) : Pres P (Foca.applyLoop E b us) := by
+  induction us with
+  | nil => unfold Foca.applyLoop; exact Pres.pure _
+  | cons u rest ih =>
+    unfold Foca.applyLoop
+    exact Pres.bind (F.applyOne u b) (fun _ => ih)
+
+theorem Full.applyMany (us : List Member) (b : Bool) : Pres P (Foca.applyMany E us b) := by
+  unfold Foca.applyMany
+  pres
+  · exact F.applyLoop _ _
+  · exact F.toBase.adjustConnectionState
+
+theorem Full.reactToMessage (h : Header) : Pres P (Foca.reactToMessage E h) := by
+  unfold Foca.reactToMessage
+  pres
+  all_goals first
+    | exact F.toBase.ctl _
+    | exact F.sendMessage _ _
+    | exact F.handleSelfUpdate _ _
+
+theorem Full.inactiveSender (h : Header) : Pres P (Foca.inactiveSender E h) := by
+  unfold Foca.inactiveSender
+  pres
+  all_goals first
+    | exact F.handleSelfUpdate _ _
+    | exact F.sendMessage _ _
+
+theorem Full.replyStage (h : Header) (cres : Option ErrKind) : Pres P (Foca.replyStage E h cres) := by
+  unfold Foca.replyStage
+  pres
+  exact F.reactToMessage _
+
+theorem Full.handleData (data : Bytes) : Pres P (Foca.handleData E data) := by
+  unfold Foca.handleData
+  pres
+  all_goals first
+    | exact F.toBase.applyUpdate _ _
+    | exact F.inactiveSender _
+    | exact F.applyMany _ _
+    | exact Pres.attempt (F.toBase.handleCustomBroadcasts _ _)
+    | exact F.replyStage _ _
+
+/-- every public call; the two identity-changing calls are hypotheses -/
+theorem Full.runOp (op : Op)
+    (hchid : ∀ i p, op = .changeIdentity i p → Pres P (Foca.changeIdentity E i p))
+    (hreuse : op = .reuseDown → Pres P Foca.reuseDownIdentity) : Pres P (Foca.runOp E op) := by
+  cases op <;> unfold Foca.runOp <;> pres
+  all_goals first
+    | exact hchid _ _ rfl
+    | exact hreuse rfl
+    | exact F.applyMany _ _
+    | exact F.handleData _
+    | exact F.toBase.handleTimer _
+    | exact F.sendMessage _ _
+    | exact F.toBase.gossip
+    | exact F.toBase.broadcastApi
+    | exact F.toBase.leaveCluster
+    | exact F.toBase.addBroadcast _
+    | exact F.toBase.setConfig _
+
+end
+
+/-- the leaf obligations of an invariant that ignores identity and incarnation -/
 structure Leaves (E : Env) (P : State → Prop) : Prop where
   init : ∀ id pol cfg, P (State.init id pol cfg)
   membersApply : ∀ u, Pres P (membersApply u)
@@ -32,80 +295,24 @@ section
 variable {E : Env} {P : State → Prop} (L : Leaves E P)
 include L
 
+theorem Leaves.base : Base E P where
+  membersApply := L.membersApply
+  membersApplyExistingIf := L.membersApplyExistingIf
+  membersNext := L.membersNext
+  removeDown := L.removeDown
+  sendMessage := L.sendMessage
+  addUpdate := L.addUpdate
+  modCtl := fun f h => L.modCtl f (fun s => ⟨(h s).1, (h s).2.1, (h s).2.2.1, (h s).2.2.2.1, (h s).2.2.2.2.1⟩)
+  modCustom := L.modCustom
+
 theorem Leaves.ctl (f : State → State)
     (h : ∀ s, (f s).ms = s.ms ∧ (f s).numActive = s.numActive ∧ (f s).updates = s.updates ∧
       (f s).custom = s.custom ∧ (f s).cursor = s.cursor := by intro s; exact ⟨rfl, rfl, rfl, rfl, rfl⟩) :
     Pres P (modS f) := L.modCtl f h
 
-theorem Leaves.chooseLoop (w : Nat) (pick : Member → Bool) (l out : List Member) (seen : Nat) :
-    Pres P (Foca.chooseLoop w pick l out seen) := by
-  constructor
-  intro c hc
-  have := chooseLoop_spec w pick l out seen c
-  cases h : Foca.chooseLoop w pick l out seen c with
-  | stuck x => trivial
-  | err e c' => rw [h] at this; exact this.elim
-  | ok a c' => rw [h] at this; simp only; rw [this.1]; exact hc
-
-theorem Leaves.sendAll (msg : Msg) (ds : List Id) : Pres P (Foca.sendAll E msg ds) := by
-  induction ds with
-  | nil => unfold Foca.sendAll; exact Pres.pure _
-  | cons d rest ih =>
-    unfold Foca.sendAll
-    exact Pres.bind (L.sendMessage d msg) (fun _ => ih)
-
-theorem Leaves.chooseAndSend (n : Nat) (msg : Msg) : Pres P (Foca.chooseAndSend E n msg) := by
-  unfold Foca.chooseAndSend
-  pres
-  · exact L.chooseLoop _ _ _ _ _
-  · exact L.sendAll _ _
-
-theorem Leaves.gossip : Pres P (Foca.gossip E) := by
-  unfold Foca.gossip
-  pres
-  exact L.chooseAndSend _ _
-
-theorem Leaves.announceToDown (n : Nat) : Pres P (Foca.announceToDown E n) := by
-  unfold Foca.announceToDown
-  pres
-  · exact L.chooseLoop _ _ _ _ _
-  · exact L.sendAll _ _
-
 theorem Leaves.reset : Pres P Foca.reset := by
   unfold Foca.reset
   exact L.ctl _
-
-theorem Leaves.becomeUndead : Pres P Foca.becomeUndead := by
-  unfold Foca.becomeUndead
-  pres
-  exact L.ctl _
-
-theorem Leaves.becomeDisconnected : Pres P (Foca.becomeDisconnected E) := by
-  unfold Foca.becomeDisconnected
-  pres
-  exact L.ctl _
-
-theorem Leaves.becomeConnected : Pres P (Foca.becomeConnected E) := by
-  unfold Foca.becomeConnected
-  pres
-  exact L.ctl _
-
-theorem Leaves.adjustConnectionState : Pres P (Foca.adjustConnectionState E) := by
-  unfold Foca.adjustConnectionState
-  pres
-  · exact L.becomeConnected
-  · exact L.becomeDisconnected
-
-theorem Leaves.handleApplySummary (sm : Summary) (u : Member) (b : Bool) : Pres P (Foca.handleApplySummary E sm u b) := by
-  unfold Foca.handleApplySummary
-  pres
-  all_goals first | exact L.addUpdate _ | skip
-
-theorem Leaves.applyUpdate (u : Member) (b : Bool) : Pres P (Foca.applyUpdate E u b) := by
-  unfold Foca.applyUpdate
-  pres
-  · exact L.membersApply u
-  · exact L.handleApplySummary _ _ _
 
 theorem Leaves.changeIdentity (i : Id) (p : Policy) : Pres P (Foca.changeIdentity E i p) := by
   unfold Foca.changeIdentity
@@ -113,8 +320,8 @@ theorem Leaves.changeIdentity (i : Id) (p : Policy) : Pres P (Foca.changeIdentit
   all_goals first
     | exact L.ctl _
     | exact L.reset
-    | exact L.addUpdate _
-    | exact L.gossip
+    | exact L.base.addUpdate _
+    | exact L.base.gossip
 
 theorem Leaves.attemptRejoin : Pres P (Foca.attemptRejoin E) := by
   unfold Foca.attemptRejoin
@@ -126,163 +333,21 @@ theorem Leaves.handleSelfUpdate (inc : Nat) (st : St) : Pres P (Foca.handleSelfU
   pres
   all_goals first
     | exact L.attemptRejoin
-    | exact L.becomeUndead
-    | exact L.gossip
+    | exact L.base.becomeUndead
+    | exact L.base.gossip
     | exact L.ctl _
-
-theorem Leaves.applyOne (u : Member) (b : Bool) : Pres P (Foca.applyOne E u b) := by
-  unfold Foca.applyOne
-  pres
-  all_goals first
-    | exact L.handleSelfUpdate _ _
-    | exact L.applyUpdate _ _
-
-theorem Leaves.applyLoop (b : Bool) (us : List Member) : Pres P (Foca.applyLoop E b us) := by
-  induction us with
-  | nil => unfold Foca.applyLoop; exact Pres.pure _
-  | cons u rest ih =>
-    unfold Foca.applyLoop
-    exact Pres.bind (L.applyOne u b) (fun _ => ih)
-
-theorem Leaves.applyMany (us : List Member) (b : Bool) : Pres P (Foca.applyMany E us b) := by
-  unfold Foca.applyMany
-  pres
-  · exact L.applyLoop _ _
-  · exact L.adjustConnectionState
-
-theorem Leaves.broadcastLoop (ds : List Id) : Pres P (Foca.broadcastLoop E ds) := by
-  induction ds with
-  | nil => unfold Foca.broadcastLoop; exact Pres.pure _
-  | cons d rest ih =>
-    unfold Foca.broadcastLoop
-    pres
-    · exact L.sendMessage _ _
-    · exact ih
-
-theorem Leaves.broadcastApi : Pres P (Foca.broadcastApi E) := by
-  unfold Foca.broadcastApi
-  pres
-  · exact L.chooseLoop _ _ _ _ _
-  · exact L.broadcastLoop _
-
-theorem Leaves.leaveCluster : Pres P (Foca.leaveCluster E) := by
-  unfold Foca.leaveCluster
-  pres
-  · exact L.addUpdate _
-  · exact L.gossip
-  · exact L.becomeUndead
-
-theorem Leaves.addBroadcast (d : Bytes) : Pres P (Foca.addBroadcast E d) := by
-  unfold Foca.addBroadcast
-  pres
-  all_goals exact L.modCustom _ (fun _ => ⟨rfl, rfl, rfl, rfl, rfl, rfl, rfl, rfl, rfl⟩)
 
 theorem Leaves.reuseDownIdentity : Pres P Foca.reuseDownIdentity := by
   unfold Foca.reuseDownIdentity
   pres
   exact L.reset
 
-theorem Leaves.setConfig (cfg : Config) : Pres P (Foca.setConfig cfg) := by
-  unfold Foca.setConfig
-  pres
-  exact L.ctl _
+theorem Leaves.full : Full E P where
+  toBase := L.base
+  handleSelfUpdate := L.handleSelfUpdate
 
-theorem Leaves.probeRandomMember : Pres P (Foca.probeRandomMember E) := by
-  unfold Foca.probeRandomMember
-  pres
-  all_goals first
-    | exact L.ctl _
-    | exact L.membersApplyExistingIf _ _
-    | exact L.handleApplySummary _ _ _
-    | exact L.membersNext
-    | exact L.sendMessage _ _
-
-theorem Leaves.pingReqLoop (probed : Id) (ds : List Id) : Pres P (Foca.pingReqLoop E probed ds) := by
-  induction ds with
-  | nil => unfold Foca.pingReqLoop; exact Pres.pure _
-  | cons d rest ih =>
-    unfold Foca.pingReqLoop
-    pres
-    · exact L.ctl _
-    · exact L.sendMessage _ _
-    · exact ih
-
-theorem Leaves.handleTimer (t : Timer) : Pres P (Foca.handleTimer E t) := by
-  unfold Foca.handleTimer
-  pres
-  all_goals first
-    | exact L.ctl _
-    | exact L.removeDown _
-    | exact L.chooseLoop _ _ _ _ _
-    | exact L.pingReqLoop _ _
-    | exact L.membersApplyExistingIf _ _
-    | exact L.handleApplySummary _ _ _
-    | exact L.adjustConnectionState
-    | exact L.sendMessage _ _
-    | exact L.probeRandomMember
-    | exact L.chooseAndSend _ _
-    | exact L.announceToDown _
-
-theorem Leaves.customLoop (sender : Option Id) (fuel : Nat) (data : Bytes) : Pres P (Foca.customLoop E sender fuel data) := by
-  induction fuel generalizing data with
-  | zero => unfold Foca.customLoop; exact Pres.throwE _
-  | succ f ih =>
-    unfold Foca.customLoop
-    pres
-    all_goals first
-      | exact L.modCustom _ (fun _ => ⟨rfl, rfl, rfl, rfl, rfl, rfl, rfl, rfl, rfl⟩)
-      | exact ih _
-
-theorem Leaves.handleCustomBroadcasts (data : Bytes) (sender : Option Id) :
-    Pres P (Foca.handleCustomBroadcasts E data sender) := by
-  unfold Foca.handleCustomBroadcasts
-  pres
-  exact L.customLoop _ _ _
-
-theorem Leaves.reactToMessage (h : Header) : Pres P (Foca.reactToMessage E h) := by
-  unfold Foca.reactToMessage
-  pres
-  all_goals first
-    | exact L.ctl _
-    | exact L.sendMessage _ _
-    | exact L.handleSelfUpdate _ _
-
-theorem Leaves.inactiveSender (h : Header) : Pres P (Foca.inactiveSender E h) := by
-  unfold Foca.inactiveSender
-  pres
-  all_goals first
-    | exact L.handleSelfUpdate _ _
-    | exact L.sendMessage _ _
-
-theorem Leaves.replyStage (h : Header) (cres : Option ErrKind) : Pres P (Foca.replyStage E h cres) := by
-  unfold Foca.replyStage
-  pres
-  exact L.reactToMessage _
-
-theorem Leaves.handleData (data : Bytes) : Pres P (Foca.handleData E data) := by
-  unfold Foca.handleData
-  pres
-  all_goals first
-    | exact L.applyUpdate _ _
-    | exact L.inactiveSender _
-    | exact L.applyMany _ _
-    | exact Pres.attempt (L.handleCustomBroadcasts _ _)
-    | exact L.replyStage _ _
-
-theorem Leaves.runOp (op : Op) : Pres P (Foca.runOp E op) := by
-  cases op <;> unfold Foca.runOp <;> pres
-  all_goals first
-    | exact L.applyMany _ _
-    | exact L.handleData _
-    | exact L.handleTimer _
-    | exact L.sendMessage _ _
-    | exact L.gossip
-    | exact L.broadcastApi
-    | exact L.leaveCluster
-    | exact L.addBroadcast _
-    | exact L.changeIdentity _ _
-    | exact L.reuseDownIdentity
-    | exact L.setConfig _
+theorem Leaves.runOp (op : Op) : Pres P (Foca.runOp E op) :=
+  L.full.runOp op (fun _ _ _ => L.changeIdentity _ _) (fun _ => L.reuseDownIdentity)
 
 /-- One public call keeps the invariant, whatever the input and the oracle. -/
 theorem Leaves.step (s : State) (op : Op) (orc : Oracle) (h : P s) :
